@@ -187,6 +187,11 @@ def c08(ctx):
              soil={"type": "SandyLoam"}, crop={"name": "MaizeGDD", "planting": "04/10", "overrides": {}},
              iwc=FC, irr={"method": 1, "SMT": [70.0] * 4}, off_season=False),
     ]
+    # a user-supplied yearly CO2 series with a plateau (a year's value equal to the previous year's, not to the first's)
+    explicit.append(dict(id=8902, start="1979/10/15", end="1983/08/30", weather={"kind": "file", "name": "tunis_climate.txt"},
+                         soil={"type": "SandyLoam"}, crop={"name": "Wheat", "planting": "10/15", "overrides": {}},
+                         iwc=FC, irr={"method": 0}, off_season=False,
+                         co2={"constant": False, "series": [[1978, 335.0], [1979, 337.0], [1980, 345.0], [1981, 345.0], [1982, 345.0], [1984, 352.0]]}))
     queue = list(explicit)
     while evals < n and tried < 6 * n:
         tried += 1
@@ -396,6 +401,8 @@ def c10(ctx):
     scs.insert(2, dict(base, id=10902, crop={"name": "Wheat", "planting": "10/15", "overrides": {}},
                        gw={"water_table": "Y", "method": "Constant",
                            "dates": ["1985-10-15", "1986-02-01", "1986-06-01", "1987-01-01"], "values": [2.0, 1.2, 2.5, 1.5]}))
+    # a user scenario whose CO2 object was built with defaults and then edited in place, run before plain ones
+    scs.insert(0, dict(base, id=10903, crop={"name": "Wheat", "planting": "10/15", "overrides": {}}, co2={"edit_default": 150.0}))
     viols, evals = [], 0
     # (a) alone, in fresh subprocesses under different hash seeds
     ref = None
@@ -519,6 +526,22 @@ def c11(ctx):
                            irr_method=(sc.get("irr") or {}).get("method")))
         elif not tables_equal(r1, r3):
             viols.append(V("C11", "rebuild-differs" + sfx, sc, "a new model from the same objects gives different results", diff=first_diff(r1, r3)))
+        # (a') the earlier use was a few steps with process_outputs=True (tables converted early), then a full re-run
+        if sc is scs[0] or sc is scs[1] or sc is scs[len(scs) // 2]:
+            try:
+                from aquacrop import AquaCropModel
+                mdl = AquaCropModel(**S.build_objects(sc))
+                mdl.run_model(num_steps=3, process_outputs=True)
+                r5 = run_full(model=mdl)
+                if r5.error:
+                    viols.append(V("C11", "rerun-after-process-outputs-raises-" + r5.error[0], sc,
+                                   "re-running a model object whose earlier run used process_outputs=True raises", error=r5.error))
+                elif not tables_equal(r1, r5):
+                    viols.append(V("C11", "rerun-after-process-outputs-differs", sc,
+                                   "re-running a model object whose earlier run used process_outputs=True gives different results",
+                                   diff=first_diff(r1, r5)))
+            except Exception:  # noqa: BLE001
+                pass
         # (c) third use
         r4 = run_full(objects=objs)
         if not r4.error and not r3.error and not tables_equal(r3, r4):
@@ -595,6 +618,9 @@ def c12(ctx):
     scs.insert(0, dict(id=12900, start="1982/10/15", end="1984/07/30", weather={"kind": "file", "name": "tunis_climate.txt"},
                        soil={"type": "SandyLoam"}, crop={"name": "Wheat", "planting": "10/15", "overrides": {"ETadj": 0}},
                        iwc={"wc_type": "Pct", "method": "Layer", "depth_layer": [1], "value": [40.0]}, irr={"method": 0}, off_season=False))
+    scs.insert(0, dict(id=12902, start="1982/05/01", end="1983/12/30", weather={"kind": "file", "name": "champion_climate.txt"},
+                       soil={"type": "SandyLoam"}, crop={"name": "Maize", "planting": "05/01", "overrides": {"ETadj": 0}},
+                       iwc={"wc_type": "Pct", "method": "Layer", "depth_layer": [1], "value": [40.0]}, irr={"method": 0}, off_season=False))
     scs.insert(0, dict(id=12901, start="2000/06/20", end="2002/12/30", weather={"kind": "file", "name": "hyderabad_climate.txt"},
                        soil={"type": "Paddy"}, crop={"name": "PaddyRice", "planting": "07/01", "overrides": {}},
                        fm={"bunds": True, "z_bund": 0.05, "bund_water": 80.0}, irr={"method": 0}, off_season=False))
@@ -648,6 +674,20 @@ def c14(ctx):
     rng = np.random.default_rng(seed + 14)
     viols, evals, nontriv, samples = [], 0, 0, []
     scs = valid_scens(seed + 14, n)
+    # extensions that bring a further planting date / further years of a sparse CO2 series into the window
+    # (inputs of the *initialisation* that grow with the window: the list of planting dates, the years interpolated)
+    scs = [
+        dict(id=14900, start="1980/10/15", end="1982/07/31", weather={"kind": "file", "name": "tunis_climate.txt"},
+             soil={"type": "SandyLoam"}, crop={"name": "WheatGDD", "planting": "10/15", "overrides": {}},
+             irr={"method": 0}, off_season=False, _ext_days=365),
+        dict(id=14901, start="1985/05/01", end="1987/12/30", weather={"kind": "file", "name": "champion_climate.txt"},
+             soil={"type": "Loam"}, crop={"name": "MaizeGDD", "planting": "05/01", "overrides": {}},
+             irr={"method": 1, "SMT": [70.0] * 4}, off_season=True, _ext_days=400),
+        dict(id=14902, start="1984/05/01", end="1988/12/30", weather={"kind": "file", "name": "champion_climate.txt"},
+             soil={"type": "SandyLoam"}, crop={"name": "Maize", "planting": "05/01", "overrides": {}},
+             irr={"method": 0}, co2={"constant": False, "series": [[1980, 338.0], [1990, 354.0], [2000, 369.0], [2010, 390.0]]},
+             off_season=False, _ext_days=1500),
+    ] + scs
     for sc in scs:
         objs = S.build_objects(sc)
         base = run_full(objects=objs)
@@ -720,6 +760,8 @@ def c14(ctx):
         # (c) extending the end date keeps completed seasons
         lo, hi = (S.STATIONS[sc["weather"]["name"]] if sc["weather"]["kind"] == "file" else (sc["weather"]["start"], sc["weather"]["end"]))
         ext_days = int(rng.choice([20, 90, 200]))
+        if "_ext_days" in sc:
+            ext_days = int(sc["_ext_days"])
         new_end = min(end + pd.Timedelta(days=ext_days), pd.Timestamp(hi))
         if new_end > end and base.summary:
             sc3 = copy.deepcopy(sc); sc3["end"] = new_end.strftime("%Y/%m/%d")
@@ -776,6 +818,16 @@ def c15(ctx):
             trans.append(("permute-columns", w0[list(p)].copy()))
         w = w0.copy(); w.insert(0, "Wind", 3.3); w["Station"] = "x"; w.insert(3, "Rs", np.arange(len(w), dtype=float))
         trans.append(("extra-columns", w))
+        # an unrelated column with missing values (a sensor log with gaps) inside the window
+        w = w0.copy()
+        gaps = np.full(len(w), 2.5)
+        gaps[rng.integers(0, len(w), max(3, len(w) // 50))] = np.nan
+        inwin = np.where((w.Date >= pd.Timestamp(sc["start"])) & (w.Date <= pd.Timestamp(sc["end"])))[0]
+        if len(inwin) > 20:
+            gaps[inwin[[5, len(inwin) // 2, len(inwin) - 7]]] = np.nan
+        w["WindSpeed"] = gaps
+        w["Remarks"] = [None if i % 97 == 0 else "ok" for i in range(len(w))]
+        trans.append(("extra-columns-with-gaps", w))
         w = w0.copy(); w.index = np.arange(len(w))[::-1] + 1000
         trans.append(("reindexed", w))
         w = w0.copy(); w.index = np.arange(len(w)) + 1
@@ -1092,6 +1144,18 @@ def c16_scenarios(seed, tier):
         sc["co2"] = None if c < 2 else (dict(constant=True, current=float(rng.choice([0, 300, 450, 700, 2100]))) if c < 4 else dict(constant=False))
         sc["c16_leap_day"] = leap
         out.append(sc)
+    # long records of thermal-time crops: every year of a station's record is some season's weather, the cool years
+    # (a later season much slower than the first, on which the harvest-date template is based) included
+    long_runs = [("MaizeChampionGDD", "champion_climate.txt", "1982/05/01", "2018/10/30", "05/01"),
+                 ("SunflowerGDD", "champion_climate.txt", "1990/05/10", "2012/10/30", "05/10"),
+                 ("WheatGDD", "tunis_climate.txt", "1979/10/15", "2001/08/30", "10/15"),
+                 ("BarleyGDD", "brussels_climate.txt", "1977/03/20", "1999/10/30", "03/20"),
+                 ("PotatoGDD", "brussels_climate.txt", "1977/04/25", "1999/10/30", "04/25")]
+    for j, (crop, wname, st, en, pl) in enumerate(long_runs if tier != "quick" else long_runs[:3]):
+        out.append(dict(id=f"c16-long-{crop}", start=st, end=en, weather={"kind": "file", "name": wname},
+                        soil={"type": ["SandyLoam", "Loam", "ClayLoam", "SiltLoam", "Clay"][j]},
+                        crop={"name": crop, "planting": pl, "overrides": {}}, irr={"method": j % 3},
+                        off_season=bool(j % 2), c16_leap_day=False, fm=None, ffm=None, gw=None, co2=None))
     return out
 
 
